@@ -23,6 +23,7 @@ AREAL = ("TimeInterval", "BoundingBox", "Polygon", "MultiPolygon")
 
 _RNG = None          # set by set_rng(): when present, build() varies HOW the object is constructed
 PATHS_USED: dict = {}
+_SUBCLASSES: dict = {}
 
 
 def set_rng(rng) -> None:
@@ -38,7 +39,7 @@ def build(spec: dict, how: str = None):
     from soundevent import data
 
     if how is None and _RNG is not None and _RNG.random() < 0.35:
-        how = _RNG.choice(["constructor", "json", "deepcopy", "pickle", "derived", "derived", "assigned", "tuples"])
+        how = _RNG.choice(["constructor", "json", "deepcopy", "pickle", "derived", "derived", "assigned", "tuples", "subclass"])
     how = how or "dict"
     PATHS_USED[how] = PATHS_USED.get(how, 0) + 1
     g = data.geometry_validate(spec, mode="dict")
@@ -48,6 +49,13 @@ def build(spec: dict, how: str = None):
         if how == "tuples":
             # list(zip(times, freqs)) / shapely coords: points arrive as tuples
             return data.geometry_validate({"type": spec["type"], "coordinates": _tuples(spec["coordinates"])}, mode="dict")
+        if how == "subclass":
+            # an application's own class derived from the library's (a labelled box, a geometry with provenance):
+            # it IS a geometry of that type
+            cls = _SUBCLASSES.get(type(g))
+            if cls is None:
+                cls = _SUBCLASSES[type(g)] = type("Labelled" + type(g).__name__, (type(g),), {"__annotations__": {"label": str}, "label": "call"})
+            return cls(coordinates=g.coordinates, label="x")
         if how == "constructor":
             return type(g)(coordinates=g.coordinates)
         if how == "json":
